@@ -11,6 +11,7 @@ import (
 	"github.com/drand/drand/v2/common"
 	"github.com/drand/drand/v2/common/key"
 	"github.com/drand/drand/v2/crypto"
+	"github.com/drand/drand/v2/internal/chain"
 	"github.com/drand/drand/v2/internal/chain/beacon"
 	"github.com/drand/drand/v2/internal/chain/memdb"
 	"github.com/drand/drand/v2/internal/zzfake"
@@ -30,6 +31,23 @@ func (p *zzPublic1) PublicRand(ctx context.Context, in *drand.PublicRandRequest)
 	return p.bp.PublicRand(ctx, in)
 }
 
+// zzRacyStore: the database under the node's store stack; once armed, the next read of the head is followed
+// (before the reader gets its answer) by whatever `after` does -- another goroutine storing a beacon in between.
+type zzRacyStore struct {
+	chain.Store
+	armed bool
+	after func()
+}
+
+func (s *zzRacyStore) Last(ctx context.Context) (*common.Beacon, error) {
+	b, err := s.Store.Last(ctx)
+	if s.armed {
+		s.armed = false
+		s.after()
+	}
+	return b, err
+}
+
 // ZZ_C01_publicExits: the gRPC randomness endpoint of a running node and the proxy the HTTP relay uses on top
 // of it. The node's store is the in-memory back-end as a freshly bootstrapped node has it: genesis, a HOLE,
 // then the newest rounds. For every requested round (0 = latest, stored, inside the hole, the next round that
@@ -45,7 +63,7 @@ func ZZ_C01_publicExits() {
 	g := zzfake.Group(sch, pairs, 2, 30*time.Second, 1700000000, ep, "")
 	g.GenesisSeed = []byte("c01p-seed")
 	clk := zzfake.NewClock(1700000000 + 7*30 + 1)
-	store := memdb.NewStore(10)
+	store := &zzRacyStore{Store: memdb.NewStore(10)}
 	// rounds 5,6,7 with genuine signatures (round 5's predecessor is not held: what a memdb bootstrap leaves)
 	prev := []byte("sig-of-round-4")
 	var held []*common.Beacon
@@ -82,6 +100,24 @@ func ZZ_C01_publicExits() {
 	var resp *drand.PublicRandResponse
 	var gerr error
 	done := false
+	next := &common.Beacon{Round: 8, Signature: zzfake.SignBeacon(sch, ep, 8, prev)}
+	if chained {
+		next.PreviousSig = prev
+	}
+	// the round about to be produced may land between the request's read of the head and its registration for
+	// the next beacon (a catch-up or sync burst): the request then waits for a round that is already stored
+	racy := false
+	if wanted == 8 {
+		racy = zz.Bool("next_round_lands_between_the_head_read_and_the_wait")
+	}
+	if racy {
+		store.after = func() {
+			if err := hd.Store().Put(context.Background(), next); err != nil {
+				panic(err)
+			}
+		}
+		store.armed = true
+	}
 	go func() {
 		r, err := proxy.Get(ctx, wanted)
 		if err == nil {
@@ -92,11 +128,31 @@ func ZZ_C01_publicExits() {
 		done = true
 	}()
 	zz.Quiesce()
-	next := &common.Beacon{Round: 8, Signature: zzfake.SignBeacon(sch, ep, 8, prev)}
-	if chained {
-		next.PreviousSig = prev
-	}
 	produced := false
+	if racy {
+		// ... and the round after it follows while the request waits
+		after := &common.Beacon{Round: 9, Signature: zzfake.SignBeacon(sch, ep, 9, next.Signature)}
+		if chained {
+			after.PreviousSig = next.Signature
+		}
+		if err := hd.Store().Put(context.Background(), after); err != nil {
+			panic(err)
+		}
+		zz.Quiesce()
+		if !done {
+			cancel()
+			zz.Quiesce()
+		}
+		zz.Assert("request_returns", done)
+		// the request may fail (it missed its round), but an answer it gives is the round it was asked for
+		if done && gerr == nil {
+			zz.Assert("answer_is_the_requested_round", res != nil && res.GetRound() == 8)
+			zz.Assert("answer_carries_the_stored_signature", res != nil && bytes.Equal(res.GetSignature(), next.Signature))
+		}
+		cancel()
+		hd.Stop(context.Background())
+		return
+	}
 	if wanted == 8 && zz.Bool("next_round_is_produced") {
 		produced = true
 		if err := hd.Store().Put(context.Background(), next); err != nil {
